@@ -157,10 +157,17 @@ func (b *faultBackend) do(kind string, in *pokerface.GameState, f func() (*poker
 			// a step was applied to a state that is not the latest successfully produced one: the
 			// hand forks and one of the branches will be lost
 			c.Viol("C13", "C13.chain_broken", map[string]any{"kind": kind, "after": b.lastKind}, "backend call #%d %s succeeded on a state that is not the one returned by the last successful call (%s)", b.ord, kind, b.lastKind)
+			c.Viol("C10", "C10.accepted_action_not_applied_once", map[string]any{"kind": kind}, "backend call #%d %s was applied to a hand state that another accepted step (%s) had already been applied to: one of the two accepted actions is lost", b.ord, kind, b.lastKind)
 			c.Viol("C16", "C16.concurrent_actions_forked_hand", map[string]any{"kind": kind}, "two game actions submitted at the same time were both applied to the same hand state (backend call #%d %s after %s): one of them is lost", b.ord, kind, b.lastKind)
 		}
 		b.lastOK = normState(out)
 		b.lastKind = kind
+		switch kind {
+		case "Fold", "Check", "Call", "Allin", "Bet", "Raise":
+			if in != nil {
+				b.w.mon.backendWager(in.Status.CurrentPlayer, kind)
+			}
+		}
 	} else if stale {
 		c.Probe("stale_state_step_refused_by_rules")
 	}
